@@ -194,6 +194,21 @@ def generate(rng, tier):
                 ops.append("sx:%s:%d:%d" % (hx(raw), i + 1, mask))
                 rules.append(raw)
         ops.extend(later)
+        # a static route taken away again, method by method - some or all of its methods: with none left the path is
+        # no longer a static route at all (pattern routes, files, the default handler answer it again)
+        statics = [(unhx(o.split(":")[1]).decode(), int(o.split(":")[3])) for o in ops
+                   if o.startswith("sr:") and "<" not in unhx(o.split(":")[1]).decode()]
+        if statics and rng.random() < 0.3:
+            spath, smask = rng.choice(statics)
+            bits = [b for b in (1, 2, 4, 8, 16, 32, 64, 128, 256) if smask & b]
+            if rng.random() < 0.4:
+                bits = rng.sample(bits, rng.randrange(1, len(bits) + 1))
+            for b in bits:
+                ops.append("pr:%s:%d" % (hx(spath), b))
+            if rng.random() < 0.5:
+                # ... where a pattern route or the default handler would match the same path
+                ops.append("sr:%s:%d:%d" % (hx(spath.rsplit("/", 1)[0] + "/<last>"), 40, rng.choice([2, 7, 511])))
+                rules.append(spath)
         if rng.random() < 0.3:
             ops.append("sd:%d:%d" % (50, rng.choice([2, 7, 511])))
         for _ in range(rng.randrange(3, 9)):
@@ -347,6 +362,13 @@ def oracle(case):
                 table[-1] = ("group", (rr[0], tuple(rr[1])), int(p[2]), int(p[3]))
             else:
                 table.append(("static", uri, int(p[2]), int(p[3])))
+        elif p[0] == "pr":
+            uri, bit = unhx(p[1]).decode(), int(p[2])
+            had = any(k == "static" and key == uri and mask & bit for k, key, fn, mask in table)
+            if (out == "ok") != had:
+                bad.append("removing %r for method bit %d answered %s, registered: %s" % (uri, bit, out, had))
+            table = [(k, key, fn, mask & ~bit if (k == "static" and key == uri) else mask) for k, key, fn, mask in table]
+            table = [e for e in table if not (e[0] == "static" and e[3] == 0)]
         elif p[0] == "sx":
             table.append(("raw", unhx(p[1]).decode(), int(p[2]), int(p[3])))
         elif p[0] == "sd":
